@@ -986,8 +986,9 @@ def get_pad_shapes_chunks(array, pad_width, axes, mode):
             if mode != "constant" or pad_width[d][i] == 0:
                 pad_chunks[i][d] = (pad_width[d][i],)
             else:
+                # an axis of length 0 has no chunk size to follow
                 pad_chunks[i][d] = normalize_chunks(
-                    (max(pad_chunks[i][d]),), (pad_width[d][i],)
+                    (max(pad_chunks[i][d]) or pad_width[d][i],), (pad_width[d][i],)
                 )[0]
 
     pad_shapes = [tuple(s) for s in pad_shapes]
